@@ -14,7 +14,10 @@ import (
 	"encoding/asn1"
 	"errors"
 	"fmt"
+	"encoding/pem"
 	"net"
+	"os"
+	"path/filepath"
 	"sort"
 	"strings"
 	"time"
@@ -62,6 +65,8 @@ type world struct {
 	goodR2                 chainEnt
 	goodRx                 chainEnt
 	expired                chainEnt
+	foreign2               chainEnt // a second well-formed chain under a root that is in no TRC
+	isd2                   chainEnt
 }
 
 func h(n int) time.Duration { return time.Duration(n) * time.Hour }
@@ -282,7 +287,17 @@ func buildWorld() *world {
 			w.goodR2 = ce
 		case "cax":
 			w.goodRx = ce
+		case "ca-isd2":
+			// (subject of the AS certificate must be in ISD 2 for the ISD lookup)
 		}
+	}
+	if a, err := mkAS("as-foreign-2", T.Add(-h(3)), T.Add(h(3)), cax, nil); err == nil {
+		w.foreign2 = chainEnt{"load:foreign2", []*x509.Certificate{a.cert, cax.cert}}
+	}
+	{
+		k := pki2.NewKey()
+		t := pki2.ASTmpl("as-isd2", iaISD2, T.Add(-h(2)), T.Add(h(2)), k)
+		w.isd2 = chainEnt{"load:isd2", []*x509.Certificate{pki2.MustIssue(t, k, caIsd2.cert, caIsd2.key), caIsd2.cert}}
 	}
 	// wrong issuer / shape defects
 	g := w.good.certs
@@ -1085,6 +1100,231 @@ func specProvider(e *vlib.Env, ps []planTRC, handed [][]*x509.Certificate, pool 
 }
 
 // ---------------------------------------------------------------------------------------
+// LoadChains (store.go): directories of several chain files in different orders
+
+type loadFile struct {
+	name   string // sort key prefix decides the processing order
+	kind   string
+	certs  []*x509.Certificate // nil: not a PEM bundle
+	isd1   bool
+	inVal  bool
+	poolIx int // index into the verification oracle's chain list, -1 if none
+}
+
+func pemOf(cs []*x509.Certificate) []byte {
+	var bb bytes.Buffer
+	for _, c := range cs {
+		_ = pem.Encode(&bb, &pem.Block{Type: "CERTIFICATE", Bytes: c.Raw})
+	}
+	return bb.Bytes()
+}
+
+func runLoad(e *vlib.Env, w *world, r *vlib.Rand, idx int) {
+	ps := genPlan(r)
+	failAll := r.Chance(3)
+	insertFails := r.Chance(3)
+	// candidate files
+	cands := []loadFile{
+		{kind: "good-r1", certs: w.good.certs, isd1: true, inVal: true},
+		{kind: "good-r2", certs: w.goodR2.certs, isd1: true, inVal: true},
+		{kind: "foreign-root", certs: w.goodRx.certs, isd1: true, inVal: true},
+		{kind: "foreign-root-2", certs: w.foreign2.certs, isd1: true, inVal: true},
+		{kind: "expired", certs: w.expired.certs, isd1: true, inVal: false},
+		{kind: "isd2", certs: w.isd2.certs, isd1: false, inVal: true},
+		{kind: "swapped", certs: []*x509.Certificate{w.good.certs[1], w.good.certs[0]}, isd1: true, inVal: true},
+		{kind: "single", certs: w.good.certs[:1], isd1: true, inVal: true},
+		{kind: "garbage"},
+		{kind: "dup-good-r1", certs: w.good.certs, isd1: true, inVal: true},
+	}
+	// scenario shapes: good-then-bad, bad-then-good, bad only, several bad, random
+	var pick []int
+	switch r.Intn(6) {
+	case 0:
+		pick = []int{r.Intn(2), 2 + r.Intn(2)}
+	case 1:
+		pick = []int{2 + r.Intn(2), r.Intn(2)}
+	case 2:
+		pick = []int{2 + r.Intn(2)}
+	case 3:
+		pick = []int{2, 3, r.Intn(2), 3}[:r.Range(2, 3)]
+	default:
+		for i := range cands {
+			if r.Chance(45) {
+				pick = append(pick, i)
+			}
+		}
+		for i := len(pick) - 1; i > 0; i-- {
+			j := r.Intn(i + 1)
+			pick[i], pick[j] = pick[j], pick[i]
+		}
+	}
+	dir, err := os.MkdirTemp("", "pki2-load-")
+	if err != nil {
+		panic(err)
+	}
+	defer os.RemoveAll(dir)
+	var files []loadFile
+	for i, ci := range pick {
+		f := cands[ci]
+		f.name = filepath.Join(dir, fmt.Sprintf("%02d-%s.pem", i, f.kind))
+		data := []byte("-----BEGIN GARBAGE-----\nAAAA\n-----END GARBAGE-----\n")
+		if f.certs != nil {
+			data = pemOf(f.certs)
+		}
+		if err := os.WriteFile(f.name, data, 0o644); err != nil {
+			panic(err)
+		}
+		files = append(files, f)
+	}
+	// a non-pem file must be ignored by the glob
+	_ = os.WriteFile(filepath.Join(dir, "zz-not-a-chain.txt"), pemOf(w.goodRx.certs), 0o644)
+
+	for attempt := 0; attempt < 5; attempt++ {
+		t0 := time.Now()
+		db := &pki2.MemDB{FailTRCCall: map[int]bool{}, FailAllTRC: failAll, FailInsert: insertFails}
+		trcObjs := make([]cppki.SignedTRC, len(ps))
+		for i, p := range ps {
+			trcObjs[i] = pki2.MkTRC(1, p.base, p.serial, t0.Add(p.nb), t0.Add(p.na), p.gr, w.rootSet(p.rootsOf))
+			db.TRCs = append(db.TRCs, trcObjs[i])
+		}
+		li, haveL := latestOf(ps)
+		pi := -1
+		if haveL {
+			pi = findPlan(ps, ps[li].base, ps[li].serial-1)
+		}
+		vfy := func(cs []*x509.Certificate, ti int) bool {
+			return ti >= 0 && cppki.VerifyChain(cs, cppki.VerifyOptions{TRC: []*cppki.TRC{&trcObjs[ti].TRC}}) == nil
+		}
+		var res trust.LoadResult
+		var lerr error
+		out, okc := vlib.Safe(func() string {
+			res, lerr = trust.LoadChains(context.Background(), dir, db)
+			return ""
+		})
+		// facts per file, in processing (= lexical) order
+		words := []string{"lc", "0", b(failAll), b(failAll), planWords(ps), fmt.Sprintf("%d", len(files))}
+		seen := map[string]bool{}
+		oks := make([][2]bool, len(files))
+		for i, f := range files {
+			if f.certs == nil {
+				words = append(words, "u")
+				continue
+			}
+			valid := cppki.ValidateChain(f.certs) == nil
+			o0, o1 := false, false
+			if f.isd1 {
+				o0, o1 = vfy(f.certs, li), vfy(f.certs, pi)
+			}
+			oks[i] = [2]bool{o0, o1}
+			key := string(f.certs[0].Raw)
+			dup := seen[key]
+			words = append(words, fmt.Sprintf("c:%s:%s:%s:%s:%s:%s:%s", b(valid), b(f.inVal), b(f.isd1), b(o0), b(o1), b(insertFails), b(dup)))
+			// the chain counts as stored once the model's decision for it is "loaded"
+			if valid && f.inVal && f.isd1 && !insertFails {
+				L := -1
+				if haveL {
+					L = li
+				}
+				if L >= 0 {
+					lp := ps[L]
+					validL := lp.nb < 0 && lp.na > 0
+					inGr := lp.base != lp.serial && lp.nb < 0 && lp.nb+lp.gr > 0
+					if validL && !failAll && (o0 || (inGr && pi >= 0 && o1)) {
+						seen[key] = true
+					}
+				}
+			}
+		}
+		if time.Since(t0) > margin/2 {
+			continue
+		}
+		// implementation answer: per file L / I, A at the file where the run stopped
+		var sb strings.Builder
+		loaded := map[string]bool{}
+		for _, f := range res.Loaded {
+			loaded[f] = true
+		}
+		for _, f := range files {
+			_, ign := res.Ignored[f.name]
+			switch {
+			case loaded[f.name]:
+				sb.WriteString("L")
+			case ign:
+				sb.WriteString("I")
+			default:
+				if lerr != nil {
+					sb.WriteString("A")
+				} else {
+					sb.WriteString("?")
+				}
+			}
+			if !loaded[f.name] && !ign {
+				break
+			}
+		}
+		ans := sb.String()
+		if ans == "" {
+			ans = "-"
+		}
+		if !okc {
+			ans = out
+		}
+		tag := "lc/ok"
+		if lerr != nil {
+			tag = "lc/abort"
+		} else if len(res.Loaded) == 0 {
+			tag = "lc/none-loaded"
+		}
+		e.Op(strings.Join(words, " "), ans, tag)
+		// statement: a chain enters the trust DB only if it verifies against the valid latest TRC,
+		// or against the predecessor inside the grace period — whatever was loaded before it
+		for i, f := range files {
+			if !loaded[f.name] {
+				continue
+			}
+			bad := func(key, what string) {
+				var order []string
+				for _, g := range files {
+					order = append(order, filepath.Base(g.name))
+				}
+				e.Violate("C34/"+key, what, map[string]any{"case": idx, "file": filepath.Base(f.name), "directory": order,
+					"store": planWords(ps)})
+			}
+			if !haveL {
+				bad("loaded-no-trc", "chain file loaded although the ISD has no TRC")
+				continue
+			}
+			lp := ps[li]
+			validL := lp.nb < 0 && lp.na > 0
+			inGr := lp.base != lp.serial && lp.nb < 0 && lp.nb+lp.gr > 0
+			switch {
+			case !f.isd1 || !validL:
+				bad("loaded-latest-invalid", "chain file loaded although no valid latest TRC exists for its ISD")
+			case oks[i][0]:
+			case inGr && pi >= 0 && oks[i][1]:
+			default:
+				bad("loaded-unverifiable", "chain file inserted into the trust DB although the chain verifies against no active TRC")
+			}
+		}
+		for _, ch := range db.Inserted {
+			found := false
+			for i, f := range files {
+				if f.certs != nil && len(ch) == 2 && len(f.certs) == 2 && bytes.Equal(ch[0].Raw, f.certs[0].Raw) && loaded[f.name] {
+					found = true
+					_ = i
+				}
+			}
+			if !found && lerr == nil {
+				e.Violate("C34/inserted-not-reported", "a chain was inserted into the DB without being reported as loaded",
+					map[string]any{"case": idx})
+			}
+		}
+		return
+	}
+	e.Case("load-case-skipped-clock", "~skipped", true)
+}
+
+// ---------------------------------------------------------------------------------------
 
 func main() {
 	e := vlib.Init()
@@ -1095,7 +1335,8 @@ func main() {
 		"chain shapes (0,1,3 certs, swapped, nil) x TRCs (root sets, no roots, unclassifiable certs, nil, zero) x " +
 		"verification times at and around every validity boundary; random field-level mutations of parsed certificates; " +
 		"provider: random TRC stores (base/serial, gaps, trust resets) with validity and grace offsets >= 250 ms from the " +
-		"wall clock, DB/fetcher/recursion failures; non-trivial = reached the decision logic (not nil/skipped); " +
+		"wall clock, DB/fetcher/recursion failures; LoadChains on directories of 1-10 chain files (genuine, foreign root, " +
+		"expired, other ISD, malformed, duplicate) in good-then-bad / bad-then-good / bad-only / random orders; non-trivial = reached the decision logic (not nil/skipped); " +
 		"distinct by op line (facts of all objects)"
 
 	// 1. every certificate of the world through ValidateCert, every chain through ValidateChain
@@ -1182,6 +1423,10 @@ func main() {
 	ng := e.N(2500, 30000)
 	for i := 0; i < ng; i++ {
 		runProvider(e, w, r, true)
+	}
+	nl := e.N(1500, 20000)
+	for i := 0; i < nl; i++ {
+		runLoad(e, w, r, i)
 	}
 	e.Extra["world_chains"] = len(w.chains)
 	e.Extra["world_trcs"] = len(w.trcs)
